@@ -227,19 +227,12 @@ def _set_level_registration(cx, f, loop, ins, container, name_var, new_var):
     c = calls[0]
     ok_args = [norm(a) for a in c.args] == [name_var, new_var]
     cx.ob("R19a", c, ok_args, f"registers ({name_var}, {new_var})" if ok_args else f"registration is {norm(c.func.value)}.register_dependent({', '.join(norm(a) for a in c.args)})", stmt=norm(c) + " [arguments]")
-    # the condition: the `if` chain between the loop and the call
-    tests = []
-    cur = c
-    while cur is not loop:
-        p_ = parent(cur)
-        if isinstance(p_, ast.If):
-            cx.need(cur in p_.body, "R19a", p_, "registration in an else branch: form not analysed")
-            tests.append(p_.test)
-        cur = p_
-    exits = [n for n in ast.walk(loop) if isinstance(n, (ast.Break, ast.Continue, ast.Return))]
-    cx.need(not exits and len(tests) >= 1, "R19a", loop, "registry pass with early exits / without a condition: form not analysed")
-    disj, extra = [], []
+    # the condition: the must-facts at the call inside the loop (if chain, early `continue` guards, however spelled)
+    exits = [n for n in ast.walk(loop) if isinstance(n, (ast.Break, ast.Return))] + \
+            [n for n in ast.walk(loop) if isinstance(n, ast.Continue) and not (isinstance(parent(n), ast.If) and parent(parent(n)) is loop and parent(n).body == [n] and not parent(n).orelse)]
+    cx.need(not exits, "R19a", loop, "registry pass with early exits other than guard `continue`s: form not analysed")
     from sa.guards import canon_test, split as _split
+    disj, extra = [], []
 
     def _named(e):
         """a test kept in a local (`is_ascendant = a or b`) is read as its definition"""
@@ -248,13 +241,27 @@ def _set_level_registration(cx, f, loop, ins, container, name_var, new_var):
             if len(ds_) == 1 and ds_[0] is not None and isinstance(ds_[0], (ast.BoolOp, ast.Compare, ast.Call, ast.UnaryOp)):
                 return ds_[0]
         return e
-    for t in tests:
-        for e_, pol_ in _split(_named(t), True):
-            e_ = _named(e_)
-            if pol_ and isinstance(e_, ast.BoolOp) and isinstance(e_.op, ast.Or):
-                disj.append(list(e_.values))
-            else:
-                extra.append(e_ if pol_ else ast.UnaryOp(op=ast.Not(), operand=e_))
+
+    def _neg(e):
+        if isinstance(e, ast.UnaryOp) and isinstance(e.op, ast.Not):
+            return e.operand
+        if isinstance(e, ast.Compare) and len(e.ops) == 1 and isinstance(e.ops[0], (ast.NotIn, ast.In)):
+            return ast.Compare(left=e.left, ops=[ast.In() if isinstance(e.ops[0], ast.NotIn) else ast.NotIn()], comparators=e.comparators)
+        return ast.UnaryOp(op=ast.Not(), operand=e)
+    todo = [(e_, p_) for e_, p_ in facts(c, stop=loop)]
+    cx.need(todo, "R19a", loop, "registry pass without a condition: form not analysed")
+    while todo:
+        e_, pol_ = todo.pop(0)
+        e2_ = _named(e_)
+        if e2_ is not e_:
+            todo = list(_split(e2_, pol_)) + todo
+            continue
+        if pol_ and isinstance(e_, ast.BoolOp) and isinstance(e_.op, ast.Or):
+            disj.append([_named(v_) for v_ in e_.values])
+        elif not pol_ and isinstance(e_, ast.BoolOp) and isinstance(e_.op, ast.And):
+            disj.append([_named(_neg(v_)) for v_ in e_.values])       # not (not a and not b)  ==  a or b
+        else:
+            extra.append(e_ if pol_ else _neg(e_))
     cx.need(len(disj) == 1, "R19a", loop, "the receivers' condition is not one disjunction `parent itself or ancestor of a parent`")
     fresh = ("in", name_var, f"{evar}.{container}", False)
 
@@ -297,7 +304,7 @@ def _set_level_registration(cx, f, loop, ins, container, name_var, new_var):
             if ps == "set":
                 k = "direct"
             elif ps == "text":
-                cx.ob("R19a", d, False, f"`{norm(d)}` tests the registered name against the raw declaration text `{norm(d.comparators[0])}`: a substring test - a parser whose name is "
+                cx.ob("R19a", d if getattr(d, "lineno", None) else loop, False, f"`{norm(d)}` tests the registered name against the raw declaration text `{norm(d.comparators[0])}`: a substring test - a parser whose name is "
                       "part of a parent's name receives the new command although it is not its ancestor (options leak to commands that did not ask for them)", stmt="direct registration", semantic=True)
                 k = "direct-text"
         elif isinstance(d, ast.UnaryOp) and isinstance(d.op, ast.Not) and isinstance(d.operand, ast.Call) and call_name(d.operand) == "isdisjoint" and len(d.operand.args) == 1:
@@ -315,11 +322,11 @@ def _set_level_registration(cx, f, loop, ins, container, name_var, new_var):
                 k = "transitive"
         if k is None and isinstance(d, ast.Compare) and len(d.ops) == 1 and isinstance(d.ops[0], (ast.LtE, ast.Lt)) and parents_set(d.left) == "set" \
                 and norm(d.comparators[0]) in (f"{evar}.{container}", f"{evar}.{container}.keys()", f"set({evar}.{container})"):
-            cx.ob("R19a", d, False, f"`{norm(d)}`: a registered parser counts as an ancestor only if ALL declared parents are among its dependents (subset test); with two parents "
+            cx.ob("R19a", d if getattr(d, "lineno", None) else loop, False, f"`{norm(d)}`: a registered parser counts as an ancestor only if ALL declared parents are among its dependents (subset test); with two parents "
                   "from different lines of the graph the grand-parents of either line are skipped - their options are not inherited", stmt="transitive registration", semantic=True)
             k = "transitive-all"
         if k is None and isinstance(d, ast.Call) and call_name(d) == "issubset" and isinstance(d.func, ast.Attribute) and parents_set(d.func.value) == "set":
-            cx.ob("R19a", d, False, f"`{norm(d)}`: ancestors are required to have ALL declared parents as dependents", stmt="transitive registration", semantic=True)
+            cx.ob("R19a", d if getattr(d, "lineno", None) else loop, False, f"`{norm(d)}`: ancestors are required to have ALL declared parents as dependents", stmt="transitive registration", semantic=True)
             k = "transitive-all"
         if k is None:
             raise AnalysisError("R19a", f"{REL}::_init_multicmd_parser", f"receiver condition `{norm(d)[:70]}` not recognised")
